@@ -263,6 +263,75 @@ F1_OPS = [["mode", 0, "REF"], ["set", 0, "a", 1], ["set", 0, "b", 10], ["get", 0
           ["mode", 0, None], ["set", 0, "b", 20], ["revert", 0], ["get", 0, "c"]]
 
 
+# ----------------------------------------------------------------------------- which __setitem__ is under test
+
+
+def detect_setitem_variant():
+    """Which fork rule does `State.__setitem__` of the tree under test have?
+
+    Returns `(fx, detail)`: `fx = True`  — an assignment made while `auto_fork_type is None` forgets `_last_fork`
+                                           (the code since 27ac519; model flag fx = true),
+                            `fx = False` — it leaves `_last_fork` alone (the code before; finding F1; fx = false),
+                            `fx = None`  — not recognised (fail closed: the caller must report a broken translation).
+    Two independent views that have to agree:
+      (a) the source: the body of `__setitem__` contains exactly one statement `if self.auto_fork_type is not None:` whose
+          branch is the single assignment `self._last_fork = self.auto_fork_type.to_cache({...})`, whose `else` is either
+          absent or the single statement `self._last_fork = None`, and `_last_fork` is assigned nowhere else in the method;
+      (b) a probe on a real State (c = a + b): fork REF; a=1; auto_fork_type=None; b=2 (through `__setitem__`, and
+          again through `put`) — is `_last_fork` None afterwards?"""
+    import ast
+    import inspect
+    import textwrap
+
+    import torch
+    from leaspy.variables.state import State, StateForkType
+    detail = dict(source=None, probe_setitem=None, probe_put=None, file=inspect.getsourcefile(State))
+    # (a) source shape
+    src = None
+    try:
+        fn = ast.parse(textwrap.dedent(inspect.getsource(State.__setitem__))).body[0]
+        is_fork_attr = lambda t: isinstance(t, ast.Attribute) and t.attr == "_last_fork"
+        all_assigns = [n for n in ast.walk(fn) if isinstance(n, (ast.Assign, ast.AugAssign, ast.AnnAssign, ast.Delete))
+                       and any(is_fork_attr(t) for t in (n.targets if hasattr(n, "targets") else [n.target]))]
+        ifs = [n for n in fn.body if isinstance(n, ast.If) and ast.unparse(n.test) == "self.auto_fork_type is not None"]
+        if len(ifs) == 1:
+            node = ifs[0]
+            body_ok = (len(node.body) == 1 and isinstance(node.body[0], ast.Assign)
+                       and ast.unparse(node.body[0].targets[0]) == "self._last_fork"
+                       and ast.unparse(node.body[0].value).startswith("self.auto_fork_type.to_cache("))
+            if body_ok and not node.orelse and len(all_assigns) == 1:
+                src = False
+            elif (body_ok and len(node.orelse) == 1 and isinstance(node.orelse[0], ast.Assign)
+                  and ast.unparse(node.orelse[0]) == "self._last_fork = None" and len(all_assigns) == 2):
+                src = True
+        detail["source"] = src
+        detail["source_if"] = ast.unparse(ifs[0]) if len(ifs) == 1 else f"{len(ifs)} matching if statements"
+    except Exception as e:  # noqa
+        detail["source_error"] = f"{type(e).__name__}: {e}"
+    # (b) behaviour
+    try:
+        G = ToyGraph.from_json(F1_GRAPH.to_json())
+        G.build()
+        for key, how in (("probe_setitem", "set"), ("probe_put", "put")):
+            st = State(G.dag)
+            st.auto_fork_type = StateForkType.REF
+            st["b"] = torch.tensor(10)
+            st["a"] = torch.tensor(1)
+            pending = st._last_fork is not None
+            st.auto_fork_type = None
+            if how == "set":
+                st["b"] = torch.tensor(2)
+            else:
+                st.put("b", torch.tensor(2), accumulate=True)
+            detail[key] = (st._last_fork is None) if pending else None
+    except Exception as e:  # noqa
+        detail["probe_error"] = f"{type(e).__name__}: {e}"
+    views = (detail["source"], detail["probe_setitem"], detail["probe_put"])
+    fx = views[0] if (views[0] is not None and views[0] == views[1] == views[2]) else None
+    detail["fx"] = fx
+    return fx, detail
+
+
 # ----------------------------------------------------------------------------- executing histories
 
 
@@ -299,7 +368,8 @@ def probe_of(st):
 
 class Session:
     """Real states of one graph + bookkeeping.  `fx` says which model the discipline flags are computed for
-    (False: the code as it is; True: after the proposed repair of F1)."""
+    (True: the code since 27ac519, an un-forked assignment drops the pending fork; False: the code before, finding F1;
+    `detect_setitem_variant()` tells which one the tree under test has)."""
 
     def __init__(self, G: ToyGraph, fx=False, oracle=True):
         from leaspy.variables.state import State
@@ -312,6 +382,11 @@ class Session:
         self.taint = [set()]          # per state: 'unforked' (F1 precondition met), 'mask' (misuse of partial revert)
         self.records = []             # (op, out, ok_flag)
         self.mismatches = []          # oracle failures: dict(step, state, node, expected, observed, taint)
+        # histories of the F1 shape, measured on the real state whatever the variant: per state, "an assignment was made
+        # with auto-fork off while a fork was pending and no forked assignment / clear happened since"
+        self.after_unforked = [False]
+        self.f1_events = []           # dict(kind: unforked-set-over-pending-fork | revert-after | read-after-revert, step, state, out)
+        self._reverted_after = [False]
 
     # -- discipline of an operation, evaluated on the real state before it runs
     def op_ok(self, op):
@@ -362,6 +437,8 @@ class Session:
             if kind == "clone":
                 self.states.append(st.clone(disable_auto_fork=bool(op[2]), keep_last_fork=bool(op[3])))
                 self.taint.append(set(self.taint[k]))
+                self.after_unforked.append(self.after_unforked[k])
+                self._reverted_after.append(self._reverted_after[k])
                 return ("done",)
             if kind == "mode":
                 st.auto_fork_type = None if op[2] is None else StateForkType[op[2]]
@@ -385,8 +462,29 @@ class Session:
         n_before = len(self.states)
         if not ok and k < len(self.states):
             self.taint[k].add("unforked" if op[0] in ("set", "put") else "mask")
+        over_pending = forked = False
+        if k < n_before and op[0] in ("set", "put"):
+            st = self.states[k]
+            over_pending = st.auto_fork_type is None and st._last_fork is not None
+            forked = st.auto_fork_type is not None
         out = self.execute(op)
         self.records.append((op, out, ok))
+        if k < n_before:
+            step = len(self.records) - 1
+            if op[0] in ("set", "put") and out == ("done",):
+                if over_pending:
+                    self.after_unforked[k] = True
+                    self._reverted_after[k] = False
+                    self.f1_events.append(dict(kind="unforked-set-over-pending-fork", step=step, state=k, out=list(out)))
+                elif forked:
+                    self.after_unforked[k] = self._reverted_after[k] = False
+            elif op[0] in ("revert", "revmask") and self.after_unforked[k]:
+                self._reverted_after[k] = True
+                self.f1_events.append(dict(kind="revert-after", step=step, state=k, out=list(out)))
+            elif op[0] == "get" and self._reverted_after[k]:
+                self.f1_events.append(dict(kind="read-after-revert", step=step, state=k, out=[out[0]]))
+            elif op[0] == "clear":
+                self.after_unforked[k] = self._reverted_after[k] = False
         if self.oracle:
             touched = [k] if k < n_before else []
             if len(self.states) > n_before:
@@ -478,9 +576,9 @@ def rand_value(rng, G, name, small=False):
     return rng.randint(lo, hi)
 
 
-def gen_history(rng, G, malformed=False, length=None, max_states=3):
-    """Generate (and execute) one history against live states.  Returns the Session."""
-    s = Session(G)
+def gen_history(rng, G, malformed=False, length=None, max_states=3, fx=False):
+    """Generate (and execute) one history against live states.  Returns the Session.  `fx`: see Session."""
+    s = Session(G, fx=fx)
     length = length or rng.randint(1, 40)
     sett = G.settable()
     names = list(G.order)
@@ -572,6 +670,27 @@ def gen_history(rng, G, malformed=False, length=None, max_states=3):
             s.apply(["mode", k, rng.choice(["REF", "COPY", None, "REF"])])
         elif r < 0.90:
             s.apply(["precompute", k])
+        elif r < 0.935 and sett and fork_pending(k):
+            # the shape of finding F1: auto-fork switched off while a fork is pending, an assignment, then a revert
+            # (refused with "no fork to revert from" since 27ac519; restored a stale undo log before) and reads
+            s.apply(["mode", k, None])
+            n = rng.choice(sett)
+            if st._values[n] is None or rng.random() < 0.5:
+                s.apply(["set", k, n, rand_value(rng, G, n)])
+            elif G.by_name[n]["kind"] == "ind" and rng.random() < 0.4:
+                s.apply(["put", k, n, rng.randrange(G.n_ind), rng.randint(-3, 3), rng.random() < 0.7])
+            else:
+                s.apply(["put", k, n, None, rand_value(rng, G, n, True), True])
+            for _ in range(rng.randint(0, 2)):
+                s.apply(["get", k, rng.choice(names)])
+            if G.by_name[n]["kind"] == "ind" and rng.random() < 0.35:
+                s.apply(["revmask", k, [rng.random() < 0.5 for _ in range(G.n_ind)]])
+            else:
+                s.apply(["revert", k])
+            for _ in range(rng.randint(1, 2)):
+                s.apply(["get", k, rng.choice(names)])
+            if rng.random() < 0.7:
+                s.apply(["mode", k, rng.choice(["REF", "COPY"])])
         elif r < 0.985:
             s.apply(["isset", k, rng.choice(names)])
         else:
